@@ -594,3 +594,156 @@ pub fn check_laws<A: Alg>(raws: &[u32], m1: u32, m2: u32) -> Result<(), Violatio
     );
     Ok(())
 }
+
+// ---------------------------------------------------------------------------------------------
+// Huge trees (height > 20): SumAdd<i64> with non-negative values, so that "sum >= t" is monotone and the
+// oracle is a prefix-sum array with binary search. Few operations: the model is O(n) per modification.
+// ---------------------------------------------------------------------------------------------
+
+#[derive(Clone, Debug, Hash, Serialize, Deserialize, PartialEq)]
+pub enum HugeOp {
+    Set { i: u32, v: u16 },
+    Modify { l: u32, r: u32, m: u16 },
+    Ask { l: u32, r: u32 },
+    /// threshold = fold of the model over [l, l+span] plus delta-1 (so flips land exactly at / next to l+span)
+    LowerBound { l: u32, span: u32, delta: u8 },
+    LowerBoundRev { r: u32, span: u32, delta: u8 },
+}
+
+#[derive(Clone, Debug, Hash, Serialize, Deserialize, PartialEq)]
+pub struct HugeCase {
+    pub n: u32,
+    pub ops: Vec<HugeOp>,
+}
+
+/// positions whose root-to-leaf paths alternate as much as possible, plus the ends
+fn huge_pos(raw: u32, n: usize) -> usize {
+    let special = [0usize, 1, 2, n - 1, n - 2, n - 3, n / 2, n / 2 - 1, n / 2 + 1, n / 3, 2 * n / 3, 0x155555 % n, 0x2AAAAA % n, 0x0FFFFF % n, 0x100000 % n, 0x1FFFFF % n, 0x200001 % n];
+    if raw & 1 == 1 {
+        special[(raw as usize >> 1) % special.len()]
+    } else {
+        (raw as usize >> 1) % n
+    }
+}
+
+pub fn run_huge(c: &HugeCase, focus: Focus) -> CaseResult {
+    use rlib_segtree::segtree_items::SumAdd;
+    let mut st = CaseStats::default();
+    let n = (c.n as usize).max(4);
+    st.size = n as u64;
+    let mut model: Vec<i64> = (0..n).map(|i| 1 + (i % 3) as i64).collect();
+    let mut tree: Segtree<SumAdd<i64>, i64> = Segtree::from_iter(model.iter().map(|&v| SumAdd::new(v)).collect::<Vec<_>>().into_iter());
+    let mut prefix: Vec<i64> = Vec::new();
+    let rebuild = |model: &Vec<i64>, prefix: &mut Vec<i64>| {
+        prefix.clear();
+        prefix.push(0);
+        let mut s = 0i64;
+        for &v in model {
+            s += v;
+            prefix.push(s);
+        }
+    };
+    rebuild(&model, &mut prefix);
+    let fold = focus == Focus::Fold;
+    for (step, op) in c.ops.iter().enumerate() {
+        match op {
+            HugeOp::Set { i, v } => {
+                let i = huge_pos(*i, n);
+                tree.set(i, SumAdd::new(*v as i64));
+                model[i] = *v as i64;
+                rebuild(&model, &mut prefix);
+            }
+            HugeOp::Modify { l, r, m } => {
+                let (mut l, mut r) = (huge_pos(*l, n), huge_pos(*r, n));
+                if l > r {
+                    std::mem::swap(&mut l, &mut r);
+                }
+                tree.modify(l, r, &(*m as i64));
+                for v in model[l..=r].iter_mut() {
+                    *v += *m as i64;
+                }
+                rebuild(&model, &mut prefix);
+            }
+            HugeOp::Ask { l, r } => {
+                let (mut l, mut r) = (huge_pos(*l, n), huge_pos(*r, n));
+                if l > r {
+                    std::mem::swap(&mut l, &mut r);
+                }
+                let got = tree.ask(l, r);
+                let want = prefix[r + 1] - prefix[l];
+                if fold {
+                    vensure!(got.v == want && got.len == (r - l + 1) as i64, "ask", "step {}: n={} ask({},{}) = ({}, len {}), model sum {} len {}", step, n, l, r, got.v, got.len, want, r - l + 1);
+                }
+            }
+            HugeOp::LowerBound { l, span, delta } => {
+                let l = huge_pos(*l, n);
+                let e = (l + (*span as usize) % (n - l)).min(n - 1);
+                let t = prefix[e + 1] - prefix[l] + *delta as i64 % 3 - 1;
+                // smallest r >= l with sum(l..=r) >= t  (values are non-negative: monotone)
+                let want = if t <= 0 {
+                    Some(l)
+                } else {
+                    let target = prefix[l] + t;
+                    let k = prefix.partition_point(|&p| p < target); // first prefix index with p >= target
+                    if k <= n && k > l {
+                        Some(k - 1)
+                    } else {
+                        None
+                    }
+                };
+                let got = tree.lower_bound(l, |it| it.v >= t);
+                if !fold {
+                    vensure!(got == want, "lower_bound/result", "step {}: n={} lower_bound(l={}, sum>={}) = {:?}, expected {:?}", step, n, l, t, got, want);
+                    st.nontrivial = true;
+                }
+            }
+            HugeOp::LowerBoundRev { r, span, delta } => {
+                let r = huge_pos(*r, n);
+                let s = r - (*span as usize) % (r + 1);
+                let t = prefix[r + 1] - prefix[s] + *delta as i64 % 3 - 1;
+                // largest l <= r with sum(l..=r) >= t
+                let want = if t <= 0 {
+                    Some(r)
+                } else {
+                    let target = prefix[r + 1] - t; // need prefix[l] <= target
+                    if prefix[0] > target {
+                        None
+                    } else {
+                        // last index l in 0..=r with prefix[l] <= target
+                        let k = prefix[..=r].partition_point(|&p| p <= target);
+                        if k == 0 {
+                            None
+                        } else {
+                            Some(k - 1)
+                        }
+                    }
+                };
+                let got = tree.lower_bound_rev(r, |it| it.v >= t);
+                if !fold {
+                    vensure!(got == want, "lower_bound_rev/result", "step {}: n={} lower_bound_rev(r={}, sum>={}) = {:?}, expected {:?}", step, n, r, t, got, want);
+                    st.nontrivial = true;
+                }
+            }
+        }
+    }
+    if fold {
+        for i in [0usize, 1, n / 2, n - 2, n - 1] {
+            let got = tree.ask(i, i);
+            vensure!(got.v == model[i], "final/element", "n={} element {} = {}, model {}", n, i, got.v, model[i]);
+        }
+        st.nontrivial = c.ops.iter().any(|o| matches!(o, HugeOp::Modify { .. }));
+    }
+    st.label("huge-tree");
+    Ok(st)
+}
+
+pub fn huge_case(sizes: Vec<u32>, max_ops: usize) -> impl Strategy<Value = HugeCase> {
+    let op = prop_oneof![
+        2 => (any::<u32>(), any::<u16>()).prop_map(|(i, v)| HugeOp::Set { i, v }),
+        3 => (any::<u32>(), any::<u32>(), 0u16..100).prop_map(|(l, r, m)| HugeOp::Modify { l, r, m }),
+        4 => (any::<u32>(), any::<u32>()).prop_map(|(l, r)| HugeOp::Ask { l, r }),
+        6 => (any::<u32>(), prop_oneof![0u32..64, any::<u32>()], 0u8..3).prop_map(|(l, span, delta)| HugeOp::LowerBound { l, span, delta }),
+        6 => (any::<u32>(), prop_oneof![0u32..64, any::<u32>()], 0u8..3).prop_map(|(r, span, delta)| HugeOp::LowerBoundRev { r, span, delta }),
+    ];
+    (prop::sample::select(sizes), prop::collection::vec(op, 1..max_ops)).prop_map(|(n, ops)| HugeCase { n, ops })
+}
